@@ -67,7 +67,15 @@ fn setup_chunked(ctx: &mut Ctx) -> R<(Sender, &'static str)> {
             _ => ("PUT", false),
         }
     };
-    let framing = if explicit { SendFraming::ExplicitChunked } else { SendFraming::DefaultChunked };
+    let framing = if explicit {
+        if ctx.chance(1, 3) {
+            SendFraming::ExplicitChunkedVariant(ctx.draw(12) as u8)
+        } else {
+            SendFraming::ExplicitChunked
+        }
+    } else {
+        SendFraming::DefaultChunked
+    };
     let via_added = explicit && !use_call && ctx.flip();
     let (s, _head) = match reach_sender_ex(ctx, framing, use_call, method, despite, via_added) {
         Ok(v) => v,
@@ -431,7 +439,11 @@ pub fn c18(ctx: &mut Ctx) -> R {
     set_observed(false);
     let chunked = ctx.sub == 0;
     let framing = if chunked {
-        if ctx.index % 4 < 2 { SendFraming::DefaultChunked } else { SendFraming::ExplicitChunked }
+        match ctx.index % 8 {
+            0 | 1 | 2 | 3 => SendFraming::DefaultChunked,
+            4 | 5 => SendFraming::ExplicitChunked,
+            _ => SendFraming::ExplicitChunkedVariant((ctx.index / 8 % 12) as u8),
+        }
     } else {
         SendFraming::Sized(1 << 50)
     };
